@@ -4,6 +4,7 @@ import json
 import os
 
 VERIF = os.path.dirname(os.path.dirname(os.path.abspath(__file__)))
+N_FIXED = len({f["status"] for f in json.load(open(os.path.join(VERIF, "known_findings.json")))["findings"] if f["status"].startswith("fixed")})
 
 BASELINE = ("cd /repo && /venv/bin/python -m pytest -ra -q -p no:cacheprovider --timeout=900 "
             "--continue-on-collection-errors")
@@ -65,7 +66,7 @@ def main():
         "checks": checks,
         "notes": "Static analysis family only. Every claim is a necessary structural condition (see DESIGN.md section 0); "
                  "exit 2 + ANALYSIS-ERROR means the analysis could not decide (missing anchor, instance floor), never a verdict. "
-                 "Known findings: known_findings.json - 26 genuine defects were repaired with fix: commits in /repo (entries 'fixed: <commit>', "
+                 "Known findings: known_findings.json - %d genuine defects were repaired with fix: commits in /repo (entries 'fixed: <commit>', " % N_FIXED +
                  "they suppress nothing); 2 are recorded and not repaired (status 'known': C02/W7 a read tied between two loci is counted "
                  "twice, C11/X5 polyT positions are 2 bp off the mirror image of polyA positions; reasons in DESIGN.md 11.3), the checks "
                  "print KNOWN-FINDING lines for exactly these keys and exit 0.",
